@@ -268,6 +268,7 @@ func RDB(t *tape.Tape, o RDBOpts) (file []byte, recs []rc.Record, version int, i
 			}
 			if version < 3 || t.Choose(3) == 2 {
 				it.ExpireS = true
+				it.ExpireMs -= it.ExpireMs % 1000
 			} else {
 				it.ExpireMs += uint64(t.Choose(1000))
 			}
